@@ -440,15 +440,29 @@ except KeyError:
              'constructor call); sub-sections go to generate_contributions', f,
              ['V_cfg, V_k, V_mix = determine_klass(V_cfg, \'model_type\', model_factory, ForwardModel)',
               'V_kw = get_keywordarg_dict(V_k, V_mix)',
-              'V_kw.update(dict([(V_a, V_b) for V_a, V_b in V_cfg.items() if not isinstance(V_b, dict)]))',
+              'V_kw.update(V_scalars)',
               'V_o = V_k(**V_kw)', 'V_c = generate_contributions(V_cfg)', '''
 for V_ci in V_c:
     V_o.add_contribution(V_ci)
 ''', 'return V_o'], binding={'V_cfg': ps[0]})
         fl = mkflow(ix, site)
-        comp = [n for n in ast.walk(f.node) if isinstance(n, ast.ListComp) and 'items()' in unparse(n)]
+        comp = [n for n in ast.walk(f.node) if isinstance(n, (ast.ListComp, ast.DictComp, ast.GeneratorExp))
+                and 'items()' in unparse(n)]
         extra = [unparse(i) for c in comp for g in c.generators for i in g.ifs
                  if not unparse(i).startswith('not isinstance(')]
+        # the comprehension passes each (key, value) through unchanged
+        for c in comp:
+            g0 = c.generators[0]
+            if isinstance(g0.target, ast.Tuple) and len(g0.target.elts) == 2 and all(isinstance(x, ast.Name) for x in g0.target.elts):
+                k_, v_ = (x.id for x in g0.target.elts)
+                if isinstance(c, ast.DictComp):
+                    same = unparse(c.key) == k_ and unparse(c.value) == v_
+                else:
+                    same = isinstance(c.elt, ast.Tuple) and [unparse(x) for x in c.elt.elts] == [k_, v_]
+                if not same:
+                    extra.append('keys / values rewritten: %s' % unparse(c)[:60])
+        if not comp:
+            extra.append('the scalar keys are not taken from the section by a comprehension over its items')
         R.check('3.model.filter', 'DOM', site, 'no [Model] key is filtered out before the constructor call',
                 not extra, key='filter %s' % extra,
                 detail='keys are dropped when %s: an unknown or mistyped key is silently ignored and the default used' % extra,
@@ -471,14 +485,18 @@ for V_ci in V_c:
         f = ix.func(site)
         fl = mkflow(ix, site)
         rets = fl.of('return')
-        ok = bool(rets) and all(isinstance(r.value_ast, ast.Name) for r in rets)
+        def fresh_dict(v):
+            """an expression that builds a new dictionary in this call"""
+            return isinstance(v, (ast.Dict, ast.DictComp)) or (
+                isinstance(v, ast.Call) and unparse(v.func) in ('determine_mixin_args', 'dict'))
+        ok = bool(rets)
         for r in rets:
             if isinstance(r.value_ast, ast.Name):
                 defs = [n for n in ast.walk(f.node) if isinstance(n, ast.Assign) and isinstance(n.targets[0], ast.Name)
                         and n.targets[0].id == r.value_ast.id]
-                ok = ok and bool(defs) and all(isinstance(d.value, ast.Dict) or
-                                               (isinstance(d.value, ast.Call) and unparse(d.value.func) in ('determine_mixin_args', 'dict'))
-                                               for d in defs)
+                ok = ok and bool(defs) and all(fresh_dict(d.value) for d in defs)
+            else:
+                ok = ok and fresh_dict(r.value_ast)
         R.check('3.fresh', 'EFF', site, 'the defaults dictionary is created inside each call (callers mutate it)',
                 ok, key='returns %s' % [unparse(r.value_ast) for r in rets], detail='returned dictionary is not call-local', loc=f.loc())
     site = FA + '::generate_contributions'
